@@ -10,6 +10,8 @@ timeout 1200 bash seed_$X/demo.sh $W >/tmp/lead/demo_clean_$ID.log 2>&1; echo "d
 git apply seed_$X/patch.diff || { echo "patch does not apply"; exit 2; }
 timeout 1200 bash seed_$X/demo.sh $W >/tmp/lead/demo_patched_$ID.log 2>&1; echo "demo patched exit: $?"
 if [ -z "$SKIP_TESTS" ]; then (cd $W && PYTHONPATH=$W timeout 2400 /venv/bin/python -m pytest -q -p no:cacheprovider --timeout=900 --continue-on-collection-errors 2>&1 | tail -1); fi
+cp $V/evidence/$CK.json /tmp/lead/evidence_backup_$CK.json 2>/dev/null
 cd $V && EMBOSS_REPO=$W timeout 3000 ./check $CK > /tmp/lead/check_${ID}_$X.log 2>&1; echo "check exit: $?"
+cp /tmp/lead/evidence_backup_$CK.json $V/evidence/$CK.json 2>/dev/null   # evidence must come from runs against /repo
 grep -E "VIOLATION|KNOWN-FINDING|detail|$CK quick" /tmp/lead/check_${ID}_$X.log | cut -c1-400 | head -20
 git -C $W checkout -q -- .
